@@ -18,6 +18,7 @@ const DEVICE_SUBCLASS: u8 = 0x02;
 const DEVICE_PROTOCOL: u8 = 0x01;
 
 const IAD_DESC_TYPE: u8 = 0x0B;
+const IAD_DESC_LENGTH: usize = 8;
 const IAD_FUNCTION_PROTOCOL: u8 = 0x00;
 
 const USB3V_SUBCLASS: u8 = 0x05;
@@ -218,10 +219,20 @@ impl Iad {
                 continue;
             }
 
+            // The bytes end inside the descriptor header.
+            if len - read < 2 {
+                break;
+            }
+
             let descriptor_type = bytes[read + 1];
             if descriptor_type != IAD_DESC_TYPE {
                 read += desc_length as usize;
                 continue;
+            }
+
+            // The bytes end inside the IAD.
+            if len - read < IAD_DESC_LENGTH {
+                break;
             }
 
             let first_interface = bytes[read + 2];
